@@ -2,7 +2,7 @@
 from checks import symgen, refqr, refmicro, refrmqr
 
 ID = 'C05'
-PROP_MODULES = ['QRV.Props.C05', 'QRV.Props.C05Ext', 'QRV.Props.C05TooLarge', 'QRV.Props.C05TooLarge2', 'QRV.Props.C05TooLargeKanji', 'QRV.Props.C05EmptyRMQR']
+PROP_MODULES = ['QRV.Props.C05', 'QRV.Props.C05Ext', 'QRV.Props.C05TooLarge', 'QRV.Props.C05TooLarge2', 'QRV.Props.C05TooLargeKanji', 'QRV.Props.C05EmptyRMQR', 'QRV.Props.C05New']
 RULE = ('for every (version, level) row and every mode: payloads of max-1, max, max+1 characters of that row\'s capacity (digits, alphanumerics, bytes, kanji) and mixed-mode payloads '
         'straddling it, x kanji on/off x rMQR priorities {area, height, width}. Oracle: the returned version holds the returned segments by the standard\'s exact bit lengths (kanji per '
         'character), no smaller admissible version (QR: lower number; Micro QR: lower admissible version; rMQR: smaller area / height / width) holds them, and "too large" is answered '
